@@ -211,8 +211,8 @@ def model_expr(prep, res, idx):
         sess["acts"] = acts
         parts.append("Some %s" % base.coq_sess(sess, prep["tid0"] + 1 + i))
     evs = common.coq_list("Run %d%%nat" % i for i in res["actual"])
-    return ("(let c := grun %s (%s_base, %s) in (showps (snd c), showfs (fst c)))"
-            % (evs, prep["name"], common.coq_list(parts)))
+    c0 = "(%s_base, %s)" % (prep["name"], common.coq_list(parts))
+    return ("(let c := grun %s %s in (showps (snd c), showfs (fst c), showgtrace (gtrace %s %s)))" % (evs, c0, evs, c0))
 
 
 def base_defs(prep):
@@ -265,7 +265,7 @@ def judge(prep, res):
 
 
 def compare(prep, res, m):
-    mps, mfs = m
+    mps, mfs, mtr = m
     pm = dict(prep["pidmap"])
     for i, o in enumerate(res["outs"]):
         pm[o.get("pid", -i - 1)] = prep["tid0"] + 1 + i
@@ -280,6 +280,14 @@ def compare(prep, res, m):
                        "implementation outcomes %s" % (i, iouts))
         elif mouts != iouts:
             bad.append("participant %d outcomes differ: model %s, implementation %s" % (i, mouts, iouts))
+    for i, out in enumerate(res["outs"]):
+        itr = base.canon_log(out.get("log", []), pm)
+        mt = [(x[1][0], tuple(x[1][1]), tuple(x[1][2]), x[1][3], [tuple(y) for y in x[1][4]]) for x in mtr if x[0] == i]
+        if mt != itr:
+            n = min(len(mt), len(itr))
+            j = next((q for q in range(n) if mt[q] != itr[q]), n)
+            bad.append("participant %d: operation traces differ at index %d of %d/%d: model %s, implementation %s"
+                       % (i, j, len(mt), len(itr), mt[j] if j < len(mt) else None, itr[j] if j < len(itr) else None))
     ifs = base.canon_state(res["final"].get("state", []), pm)
     mfs = base.fs_entries(mfs)
     if ifs != mfs:
